@@ -325,41 +325,88 @@ func (x *Exec) applyContract(st *State, c *Contract, fn *ssa.Function, sig *type
 			names["result"] = res[0]
 		}
 	}
-	env2 := &Env{x: x, st: st, old: pre, names: names, assuming: true}
-	npc := len(st.pc)
-	for _, cl := range c.Clauses {
-		if cl.Kind == "ensures" {
-			post := env2.evalBool(cl.E)
-			if post.IsFalse() && !st.dead {
-				// a callee postcondition that is literally false here would silently close the path:
-				// the path must then be infeasible on its own, otherwise the contracts are inconsistent
-				x.addObl(st, "consistent", short+":"+cl.Label, TFalse, pos, "postcondition of "+short+" ["+cl.Label+"] evaluates to false at this call; the call must be unreachable")
-			}
-			st.assume(post)
-		}
-	}
-	// results whose value the contract fixes to a literal are replaced by that literal
-	// (rank-bounded callers rely on concrete lengths to unroll loops)
-	lits := map[string]Term{}
-	for _, f := range st.pc[npc:] {
-		collectLitEqs(f, lits)
-	}
-	if len(lits) > 0 {
-		for i, r := range res {
-			ls := flatten(r)
-			changed := false
-			for j, l := range ls {
-				if v, ok := lits[l.S]; ok && v.Sort == l.Sort {
-					ls[j] = v
-					changed = true
+	// results bound to locations inside other objects; an undetermined "when" condition forks the path
+	var finish func(st *State, res []Value, names map[string]Value, from int)
+	finish = func(st *State, res []Value, names map[string]Value, from int) {
+		env2 := &Env{x: x, st: st, old: pre, names: names, assuming: true}
+		for bi := from; bi < len(c.Binds); bi++ {
+			bd := c.Binds[bi]
+			if bd.Cond != nil {
+				ct := env2.evalBool(bd.Cond)
+				if !impliedByPath(st, ct) {
+					if impliedByPath(st, Not(ct)) {
+						continue
+					}
+					if !x.solverImplies(st, ct) {
+						if x.solverImplies(st, Not(ct)) {
+							continue
+						}
+						// fork: condition false (result stays a fresh reference) ...
+						st2 := st.clone()
+						st2.path = append(st2.path, "unbound")
+						st2.assume(Not(ct))
+						res2 := append([]Value(nil), res...)
+						names2 := map[string]Value{}
+						for k, v := range names {
+							names2[k] = v
+						}
+						x.guarded(st2, nil, func() { finish(st2, res2, names2, bi+1) })
+						// ... and condition true
+						st.path = append(st.path, "bound")
+						st.assume(ct)
+					}
 				}
 			}
-			if changed {
-				res[i] = rebuild(r, ls)
+			pv, ok := env2.eval(bd.E).(PtrV)
+			if !ok {
+				x.unsupportedf("binds %s of %s: not a pointer", bd.Name, short)
+			}
+			for i := range res {
+				if nm.results[i] == bd.Name {
+					res[i] = pv
+					names[bd.Name] = pv
+				}
 			}
 		}
+		npc := len(st.pc)
+		for _, cl := range c.Clauses {
+			if cl.Kind == "ensures" {
+				post := env2.evalBool(cl.E)
+				if post.IsFalse() && !st.dead {
+					// a callee postcondition that is literally false here would silently close the path:
+					// the path must then be infeasible on its own, otherwise the contracts are inconsistent
+					x.addObl(st, "consistent", short+":"+cl.Label, TFalse, pos, "postcondition of "+short+" ["+cl.Label+"] evaluates to false at this call; the call must be unreachable")
+				}
+				st.assume(post)
+			}
+		}
+		// results whose value the contract fixes to a literal are replaced by that literal
+		// (rank-bounded callers rely on concrete lengths to unroll loops)
+		lits := map[string]Term{}
+		for _, f := range st.pc[npc:] {
+			collectLitEqs(f, lits)
+		}
+		if len(lits) > 0 {
+			for i, r := range res {
+				if pv, ok := r.(PtrV); ok && (pv.Kind != PHeap || len(pv.Path) > 0) {
+					continue
+				}
+				ls := flatten(r)
+				changed := false
+				for j, l := range ls {
+					if v, ok := lits[l.S]; ok && v.Sort == l.Sort {
+						ls[j] = v
+						changed = true
+					}
+				}
+				if changed {
+					res[i] = rebuild(r, ls)
+				}
+			}
+		}
+		cont(st, packResults(res))
 	}
-	cont(st, packResults(res))
+	finish(st, res, names, 0)
 }
 
 // ---------- frames ----------
